@@ -263,9 +263,11 @@ func (s *uStmt) Exec(args []driver.Value) (driver.Result, error) {
 			return nil, err
 		}
 		n := int64(0)
+		either := strings.Contains(lq, " or ") // the statement's own connective decides
 		for k := range *logs {
 			l := &(*logs)[k]
-			if l.present && l.branch == uInt(args[0]) && l.xid == uText(args[1]) {
+			mb, mx := l.branch == uInt(args[0]), l.xid == uText(args[1])
+			if l.present && ((mb && mx) || (either && (mb || mx))) {
 				l.present = false
 				n++
 			}
@@ -445,6 +447,13 @@ func (s *uStmt) Query(args []driver.Value) (driver.Rows, error) {
 		out := &uRows{cols: []string{"branch_id", "xid", "context", "rollback_info", "log_status"}}
 		for _, l := range *logs {
 			if l.present && l.branch == uInt(args[0]) && l.xid == uText(args[1]) {
+				// a predicate on log_status in the statement is honoured
+				if strings.Contains(lq, "log_status = 0") && l.status != 0 {
+					continue
+				}
+				if strings.Contains(lq, "log_status = 1") && l.status != 1 {
+					continue
+				}
 				out.data = append(out.data, []driver.Value{l.branch, l.xid, l.context, l.info, l.status})
 			}
 		}
